@@ -60,6 +60,8 @@ class CoopRLock:
                 # a thread died holding the lock; harnesses detect this through `stale` / `owner` before probing
                 raise RuntimeError('lock left held by thread %r after the execution' % (self.owner,))
         else:
+            if s.reduce == 'locks' and self.owner != me and getattr(_TLS, 'active', False):
+                s.point(me, (me, 'acquire'))       # lock-granularity exploration: a scheduling point before each acquire
             while self.owner is not None and self.owner != me:
                 if not blocking:
                     return False
@@ -80,6 +82,8 @@ class CoopRLock:
             s = _CURRENT
             if s is not None:
                 s.unblock(self)
+                if s.reduce == 'locks' and getattr(_TLS, 'active', False):
+                    s.point(me, (me, 'release'))   # ... and after each final release
 
     def __enter__(self):
         return self.acquire()
@@ -225,6 +229,8 @@ class Scheduler:
         cc = self._codes.get(code)
         if cc is None:
             cc = self._codes[code] = code.co_code
+        if self.reduce == 'locks':
+            return          # lock-granularity mode: scheduling points only at lock operations (see CoopRLock)
         if self.reduce and cc[offset] in LOCAL_OPS:
             return
         self.point(me, (me, code.co_name, offset))
